@@ -45,6 +45,10 @@ CLAIMED = {
          "Exploration by generated search: expected output or expected failure ('=' without a visible variable) from an independent interpreter; after Execute the caller's VarMap must have the same keys and the values the model predicts.",
          "Trusts the reference interpreter; '=' on names that exist only as global or built-in is not generated; yield arguments do not read parameter names.",
          'DESIGN.md section 5/C07'),
+ 'C08': ('property-based testing (rapid), model-based: generated template sets (extends chains, import lists, overlapping block names, parameters/defaults, yields with shuffled/omitted named arguments, contexts, content, nested and recursive yields); oracle = MiniJet reference interpreter (block table = extended chain overlaid by imports in order overlaid by own definitions; dynamic lookup; content closures)',
+         'Exploration by generated search over set shapes (chain length x import count x winning level in the label histogram) with exact output equality against an independent interpreter.',
+         "Trusts the reference interpreter. Shapes the statement leaves open are not generated: cycles, positional arguments, arguments reading a name bound by an earlier argument of the same yield, parameters without default that are omitted, a name defined twice in one file, 'yield content' in a block that can be invoked without content.",
+         'DESIGN.md section 5/C08'),
 }
 PENDING = {}
 
